@@ -360,6 +360,42 @@ def check_announced(model, rep):
     rep.ob('R13.5', j.key, j.where(), ok, '_join_arguments rejects conflicting definitions of one name' if ok else '_join_arguments does not compare shape and dtype', statement='join-conflict')
 
 
+def check_monomial_ravel(model, rep, rule='R13.7'):
+    """Monomial._derivative scatters the derivative of the polynomial with respect to one argument through the ravelled multi-index
+    of that argument: Inflate(Diagonalize(m), ravel_index, ravel_length) followed by unravel(..., arg.shape).  unravel is row-major,
+    so ravel_index must be the row-major flat index of self.indices[iarg] over arg.shape and ravel_length the number of entries.
+    The statements are executed symbolically for arguments of 1..4 axes (sa/flatindex.py)."""
+    from sa.algebra import Poly, Unsupported
+    from sa.flatindex import Exec, row_major, symbols, product
+    f = model.func('evaluable:Monomial._derivative')
+    blocks = [b for b in ast.walk(f.node) if isinstance(b, ast.If) and src(b.test) == 'arg.ndim']
+    if len(blocks) != 1:
+        raise AnalysisError('Monomial._derivative: the `if arg.ndim:` block was not found')
+    body = blocks[0].body
+    last = body[-1]
+    infl = [c for c in ast.walk(last) if isinstance(c, ast.Call) and src(c.func) == 'Inflate' and len(c.args) == 3]
+    unr = [c for c in ast.walk(last) if isinstance(c, ast.Call) and src(c.func) == 'unravel']
+    if len(infl) != 1 or len(unr) != 1 or src(unr[0].args[-1]) != 'arg.shape':
+        raise AnalysisError('Monomial._derivative: unravel(Inflate(Diagonalize(m), index, length), -1, arg.shape) was not found')
+    bad = None
+    try:
+        for n in range(1, 5):
+            i, sh = symbols('i', n), symbols('s', n)
+            ex = Exec({}, binder=lambda t, i=i, sh=sh: list(i) if t == 'self.indices[iarg]' else list(sh) if t == 'arg.shape' else None)
+            ex.run(body[:-1])
+            idx, length = ex.num(ex.ev(infl[0].args[1])), ex.num(ex.ev(infl[0].args[2]))
+            if not idx == row_major(i, sh):
+                bad = (n, f'the scatter index is {idx!r}, the row-major flat index that unravel(…, arg.shape) inverts is {row_major(i, sh)!r}')
+                break
+            if not length == product(sh):
+                bad = (n, f'the scattered length is {length!r}, the argument has {product(sh)!r} entries')
+                break
+    except Unsupported as e:
+        raise AnalysisError(f'Monomial._derivative: the ravel statements use a construct the symbolic executor does not know: {e}')
+    rep.ob(rule, f.key, f.where(body[0]), bad is None, 'the derivative is scattered through the row-major flat index of the argument\'s multi-index (symbolic execution, 1..4 axes)' if bad is None else
+           f'for an argument of {bad[0]} axes {bad[1]}: the derivative of a factored polynomial with respect to that argument is scattered to the wrong entries', statement='monomial-ravel')
+
+
 def run(model, rep, tier):
     rep.explanation = (
         'R13.1: symtable name resolution over the argument-manipulation mechanisms of function.py and evaluable.py (a name bound in no scope on a non-error path is a NameError for '
@@ -373,12 +409,14 @@ def run(model, rep, tier):
     rep.rule('R13.3', 'run-time ingestion and substitution keep shape/dtype comparisons')
     rep.rule('R13.4', 'raw specification consumed only through _argument_to_array')
     rep.rule('R13.5', 'announced argument tables agree with substitution; targets validated')
+    rep.rule('R13.7', 'Monomial._derivative ravels the argument multi-index row-major (symbolic execution)')
     rep.rule('R13.6', 'supplied argument values are converted with a casting-checked conversion (wrong kind raises)')
     check_names(model, rep)
     check_spellings(model, rep)
     check_runtime(model, rep)
     check_spec_opacity(model, rep)
     check_announced(model, rep)
+    check_monomial_ravel(model, rep)
     rep.require('R13.2', 13)
     rep.require('R13.3', 4)
     rep.require('R13.4', 2)
